@@ -11,9 +11,9 @@ CONSTANTS
   MaxRestarts = 0
   Detector = FALSE
   RetryLimit = 0
-  AtomicRemove = TRUE
+  AtomicRemove = FALSE
   RemoveByHash = FALSE
-  LockedRemove = FALSE
+  LockedRemove = TRUE
   Contents = {0,1}
   FinLag = 0
   NoIdle = FALSE
